@@ -418,6 +418,33 @@ def handlerForwardsDel (wiring shape : Nat) : Bool := wiring == 0 || shape == 0
 def deliverDel (wiring shape : Nat) (op : Op) : Op :=
   if handlerForwardsDel wiring shape && delUnderstood shape then op else .nop
 
+/-! ### reservation informer → reserve pod → the pod handler (core.go NewPodGroupManager: the pod handler literal is
+registered once more on the Reservation informer behind reservationutil.NewReservationToPodEventHandler, no filter) -/
+
+/-- A Reservation that is a gang member (gang labels / annotations in spec.template or on the object), as far as
+    NewReservePod + onPodAdd / onPodUpdate look at it:  `req` = spec.template.spec.nodeName is set (the node the user
+    REQUESTED: NewReservePod moves it to the reservation-node annotation and clears spec.nodeName);  `sched` =
+    status.nodeName is set (the scheduling RESULT: it becomes the reserve pod's spec.nodeName);  `phase` 0 = pending /
+    available / waiting, 1 = succeeded, 2 = failed or expired (reserve pod phase Succeeded / Failed). -/
+structure Rsv where
+  req   : Bool
+  sched : Bool
+  phase : Nat
+deriving Repr, DecidableEq
+
+/-- "the reserve pod is already bound", as onPodAddInternal decides it.  rule 0 = the code: pod.Spec.NodeName, which
+    NewReservePod fills from status.nodeName only.  rule 1 = a variant that falls back to the reservation-node annotation
+    (GetReservePodNodeName), i.e. to the REQUESTED node. -/
+def reservePodHasNode (rule : Nat) (r : Rsv) : Bool := r.sched || (rule == 1 && r.req)
+
+/-- koordutil.IsPodTerminated on the reserve pod -/
+def reservePodTerminated (r : Rsv) : Bool := r.phase != 0
+
+/-- ReservationToPodEventHandler.OnAdd / OnUpdate → onPodAdd / onPodUpdate: the pod event the GangCache sees.
+    onPodUpdate drops a terminated pod; onPodAdd does not look at the phase. -/
+def deliverRsv (rule : Nat) (upd : Bool) (r : Rsv) (p : Pod) (g : GangId) (anno : Option (Bool × Cfg)) : Op :=
+  if upd && reservePodTerminated r then .nop else .podEvt p g (reservePodHasNode rule r) anno
+
 def step (s : State) : Op → State × Out
   | .pgAdd g c => (pgAdd s g c, {})
   | .pgUpd g c => (pgUpd s g c, {})
